@@ -37,6 +37,9 @@ def snap_down(x, regime):
 
 
 def pick_size(rng, kind, size_class):
+    if size_class == "tall" and kind == "plate":
+        # more rows than the alphabet has letters (a 1536-well plate has 32)
+        return rng.randint(27, 32), rng.randint(1, 3)
     if size_class == "wide":
         # three-digit column numbers (well IDs such as A100)
         return (rng.randint(1, 3), rng.randint(100, 120)) if kind == "plate" else (rng.randint(1, 3), rng.randint(100, 104))
@@ -99,7 +102,7 @@ def gen_labware(rng, kind, name, regime, size_class, idx, opts):
         ini = [[min(v, vmax) for v in row] for row in ini]
         spec["initial"] = enc(ini)
         nm = rng.random()
-        if nm < 0.4:
+        if nm < 0.4 or rows > 26:
             spec["names"] = None
         else:
             names = {}
@@ -199,6 +202,11 @@ def gen_world(rng, opts=None):
         if i == 1 and opts.get("need_plate"):
             kind = "plate"
         labs.append(gen_labware(rng, kind, names[i], regime, size_class, i, opts))
+    if opts.get("tall", True) and rng.random() < 0.02:
+        # one plate with more rows than row letters - if the library offers such plates at all (see resolve_tall)
+        j = rng.randrange(n)
+        labs[j] = gen_labware(rng, "plate", names[j], regime, "tall", j, opts)
+        resolve_tall(labs[j])
     if n >= 2 and rng.random() < 0.15:
         # replicate labware: built from the very same initial-volumes array object as another one (a user who
         # fills several plates from one layout array) - the library must not let them share state
@@ -238,6 +246,40 @@ def gen_world(rng, opts=None):
     wl["ctor_positional"] = rng.random() < 0.12
     wl["legacy_class"] = rng.random() < 0.08
     return {"device": device, "regime": regime, "worklist": wl, "disk": disk, "labware": labs}
+
+
+def resolve_tall(spec):
+    """A plate with more than 26 rows: the statements define well IDs only up to row Z. The script takes the IDs
+    from the library's own `wells` array; if the library does not offer a consistent plate of that size (the
+    unchanged tree silently stops at row Z) the script falls back to a 26-row plate. Decided once, when the world is
+    made, and recorded in the spec, so a replay never asks again."""
+    import warnings
+
+    from .. import rt as rtmod
+
+    ok, ids = False, None
+    try:
+        rt = rtmod.load()
+        with warnings.catch_warnings():
+            warnings.simplefilter("ignore")
+            lab = build_labware(rt, spec)
+        w = lab.wells
+        if tuple(w.shape) == (spec["rows"], spec["cols"]) and tuple(lab.volumes.shape) == (spec["rows"], spec["cols"]):
+            ids = [[str(w[r, c]) for c in range(spec["cols"])] for r in range(spec["rows"])]
+            flat = [x for row in ids for x in row]
+            ok = len(set(flat)) == len(flat) and all(x in lab.indices for x in flat)
+    except Exception:  # noqa
+        ok = False
+    if ok:
+        spec["ids"] = ids
+    else:
+        spec["rows"] = 26
+        ini = spec["initial"]
+        n = 26 * spec["cols"]
+        if ini and isinstance(ini[0], list):
+            spec["initial"] = ini[:26]
+        spec["tall_fallback"] = True
+    return spec
 
 
 # ------------------------------------------------------------------ building the real objects
